@@ -80,6 +80,7 @@ func clInsertPublish(c *Ctx) {
 				return false
 			}
 			seen[v] = true
+			v = strip(seeRet(v))
 			switch y := v.(type) {
 			case *ssa.Call:
 				return p.CallsAny(y, findPath)
